@@ -620,6 +620,7 @@ def run(ctx):
     ctx.log("parser part done")
     ncases = gen_numeric_cases(L, rng, ctx.scale(400, 4000), ctx.scale(400, 4000))
     ncases += c11_mirror.gen_cases(L, rng, ctx.scale(400, 4000), ctx.scale(300, 3000))
+    ncases += c11_mirror.gen_sim_cases(L, rng, ctx.scale(60, 600))
     # the value flow of both front ends (Flow.v at binary64 + model of reb_particle_from_orbit_err) against what
     # reb_particle_from_fmt / rebound.Particle returned for the accepted classical requests of part (a)
     nflow = 0
@@ -663,7 +664,7 @@ def run(ctx):
     nan_bad = [d for k, _, _, d in ncases if k == "from_orbit" and not d["nan_particle_on_error"]]
     from collections import Counter
     ctx.extra["numeric_cases"] = dict(Counter(k for k, _, _, _ in ncases))
-    ctx.obligation("correspondence:C11 model(binary64, libm tables) == reb_particle_from_orbit_err / reb_mod2pi / reb_M_to_E / reb_E_to_f / reb_M_to_f / reb_orbit_from_particle_err / reb_tools_solve_kepler_pal / reb_particle_from_pal / reb_tools_particle_to_pal / value flow of both front ends bit-for-bit on %d cases" % len(ncases),
+    ctx.obligation("correspondence:C11 model(binary64, libm tables) == reb_particle_from_orbit_err / reb_mod2pi / reb_M_to_E / reb_E_to_f / reb_M_to_f / reb_orbit_from_particle_err / reb_tools_solve_kepler_pal / reb_particle_from_pal / reb_tools_particle_to_pal / value flow of both front ends / orbits read from live simulations (t != 0) bit-for-bit on %d cases" % len(ncases),
                    corr_ok and not bad_total, "mismatching (%d): %s" % (len(bad_total), [(ncases[b][0], ncases[b][3]) for b in bad_total[:4]]))
     ctx.obligation("correspondence:C11 an error code of reb_particle_from_orbit_err comes with an all-NaN particle",
                    not nan_bad, str(nan_bad[:2]))
